@@ -49,7 +49,14 @@ def build_keep_bnodes(lines, prefixes):
         def triple(self, s, p, o): self.out.append((s, p, o))
     sink = Sink()
     parser = W3CNTriplesParser(sink)
+    # the labels of the document become the identifiers of the blank nodes (as BNode("label") does, and as formats that keep
+    # identifiers do): a relabelling of the document is then a relabelling of the graph the validator sees
+    import re
+    from rdflib import BNode
     bmap = {}
+    for ln in lines:
+        for lab in re.findall(r"(?:^|\s)_:([A-Za-z0-9]+)", ln):
+            bmap.setdefault(lab, BNode(lab))
     for ln in lines:
         parser.parsestring(ln + "\n", bnode_context=bmap)
     for t in sink.out:
